@@ -380,6 +380,7 @@ impl State {
             return Err(e);
         }
         self.const_undo.truncate(mark.const_undo_len);
+        self.forget_build_log(&mark);
         self.context_close()
     }
 
@@ -392,7 +393,17 @@ impl State {
             return Err(e);
         }
         self.const_undo.truncate(mark.const_undo_len);
+        self.forget_build_log(&mark);
         self.context_close()
+    }
+
+    // What ran while the source was being built (its meta blocks, `const`, immediate words) is not a
+    // step of any program and the code it ran has been purged: it leaves nothing in the reverse log,
+    // so that reverse stepping through the program ends at the program's first instruction.
+    fn forget_build_log(&mut self, m: &BuildMark) {
+        if let Some(log) = self.reverse_log.as_mut() {
+            log.truncate(m.log_len);
+        }
     }
 
     fn build_mark(&self) -> BuildMark {
